@@ -444,6 +444,7 @@ type c15World struct {
 	rec    *c15RecMessenger
 	ctrl   *standardcontroller.Service
 	msgr   *standardsynccommitteemessenger.Service
+	ev     *eventsProvider
 }
 
 type c15WorldCfg struct {
@@ -451,13 +452,14 @@ type c15WorldCfg struct {
 	startSlot uint64 // virtual time 0 is the start of this slot
 	positions map[phase0.ValidatorIndex][]phase0.CommitteeIndex
 	real      bool // real messenger, aggregator, signer (else the recording messenger)
+	verify    bool // controller option verify-sync-committee-inclusion
 	delay     time.Duration
 	noCtrl    bool              // only the messenger (selection part)
 	before    func(w *c15World) // scripts the stand-ins before the controller is constructed
 }
 
 func c15Build(cfg c15WorldCfg) *c15World {
-	w := &c15World{env: newC15Env()}
+	w := &c15World{env: newC15Env(), ev: &eventsProvider{}}
 	w.ctx, w.cancel = mcontext.WithCancel(context.Background())
 	w.ct = newChainTime(-int64(cfg.startSlot)*int64(c15SlotDur), c15SlotDur, c15SPE)
 	sp := &specProvider{m: cfg.spec}
@@ -533,7 +535,8 @@ func c15Build(cfg c15WorldCfg) *c15World {
 		standardcontroller.WithProposerDutiesProvider(vouchmock.NewProposerDutiesProvider()),
 		standardcontroller.WithAttesterDutiesProvider(vouchmock.NewAttesterDutiesProvider()),
 		standardcontroller.WithSyncCommitteeDutiesProvider(w.duties),
-		standardcontroller.WithEventsProvider(&eventsProvider{}),
+		standardcontroller.WithEventsProvider(w.ev),
+		standardcontroller.WithVerifySyncCommitteeInclusion(cfg.verify),
 		standardcontroller.WithValidatingAccountsProvider(w.accts),
 		standardcontroller.WithProposalsPreparer(mockproposalpreparer.New()),
 		standardcontroller.WithScheduler(sched),
